@@ -33,6 +33,28 @@ pub fn gen_build_case(rng: &mut Rng, tier: Tier) -> BuiltCase {
     src.imports.push(Imp { form: Form::Static, text: (*rng.pick(&["jsr:", "npm:", "node:path", "npm:@/bad@@"])).to_string() });
     world.entries.insert(spec, Entry::Module { src, raw: None, headers: None });
   }
+  // modules answered under a final specifier other than the requested one (a documented loader
+  // behaviour: "the returned specifier is the final specifier")
+  if rng.chance(20) {
+    let mods: Vec<String> = world
+      .entries
+      .iter()
+      .filter(|(s, e)| matches!(e, Entry::Module { .. }) && attr_class_target(s, true) == 0 && !s.ends_with(".json"))
+      .map(|(s, _)| s.clone())
+      .collect();
+    let all: Vec<String> = world.entries.keys().filter(|s| attr_class_target(s, true) == 0 && !s.ends_with(".json")).cloned().collect();
+    for _ in 0..rng.range(1, 2) {
+      if mods.is_empty() {
+        break;
+      }
+      let from = rng.pick(&mods).clone();
+      let ext = from.rsplit('.').next().unwrap_or("ts").to_string();
+      let to = if rng.chance(50) { rng.pick(&all).clone() } else { format!("https://h.test/final{}.{}", rng.below(3), ext) };
+      if to != from {
+        world.final_specifiers.insert(from, to);
+      }
+    }
+  }
   let roots: Vec<String> = {
     let r: Vec<String> = roots.iter().filter(|r| attr_class_target(r, true) == 0).cloned().collect();
     if r.is_empty() { vec!["https://h.test/nowhere.ts".to_string()] } else { r }
@@ -102,6 +124,9 @@ pub fn parse_world(c: &BuiltCase) -> (HashMap<String, ParsedMod>, Vec<String>) {
   let mut strings = BTreeSet::new();
   for (spec, e) in &c.world.entries {
     strings.insert(spec.clone());
+    if let Some(f) = c.world.final_specifiers.get(spec) {
+      strings.insert(f.clone());
+    }
     if let Entry::Redirect(to) = e {
       strings.insert(to.clone());
     }
@@ -153,6 +178,10 @@ pub fn gen_case(seed: u64, k: u64, tier: Tier) -> Case {
 
 pub fn run(cfg: &RunCfg) {
   let n = if cfg.tier == Tier::Quick { 3000 } else { 60000 };
+  // registry (stage B2) worlds
+  let nj = if cfg.tier == Tier::Quick { 1500 } else { 30000 };
   let tier = cfg.tier;
-  run_cases(cfg, n, |seed, k| gen_case(seed, k, tier));
+  run_cases(cfg, n + nj, |seed, k| {
+    if k < n { gen_case(seed, k, tier) } else { crate::props::jsr::gen_case(seed, k - n, crate::props::jsr::Flavour::Mixed) }
+  });
 }
